@@ -54,6 +54,14 @@ def global_state(model):
             key = _resolve_global(model, mod, d)
             if key in cands:
                 written[key] = written.get(key, 0) + 1
+            elif isinstance(tgt, ast.Name):
+                # a local that may alias a global container (`cache = divisions_lru` on some path)
+                for a in iter_body_nodes(fn):
+                    if isinstance(a, ast.Assign) and any(isinstance(t, ast.Name) and t.id == tgt.id for t in a.targets):
+                        dv = dotted(a.value)
+                        k2 = _resolve_global(model, mod, dv) if dv else None
+                        if k2 in cands:
+                            written[k2] = written.get(k2, 0) + 1
     return cands, written
 
 
@@ -71,7 +79,7 @@ def _resolve_global(model, mod, d):
     return (mod.name, d)
 
 
-def _is_cache_expr(model, mod, fn, defs, e, state):
+def _is_cache_expr(model, mod, fn, defs, e, state, _depth=0):
     """does expression e denote one of the inventoried caches (or the per-source _division_info LRU)?"""
     d = dotted(e)
     if d is None:
@@ -85,6 +93,13 @@ def _is_cache_expr(model, mod, fn, defs, e, state):
         v = defs.single_value(e.id, e)
         if v is not None and v is not e:
             return _is_cache_expr(model, mod, fn, defs, v, state)
+        # may-alias: a parameter / local that is (re)bound to a global cache on some path (`if cache is None: cache = LRU`)
+        if _depth < 3:
+            for d_ in defs.reaching(e.id, e):
+                if d_.value is not None and d_.value is not e:
+                    r = _is_cache_expr(model, mod, fn, defs, d_.value, state, _depth + 1)
+                    if r is not None:
+                        return r
     return None
 
 
